@@ -22,7 +22,7 @@ from harness import buildlib as B
 from harness import c08
 from harness.common import Run, coq_list, parse_coq_string
 
-CONE = ["Base.v", "IR.v", "Show.v", "Build.v", "Sem.v", "Plan.v", "Named.v", "Validate.v", "BuildFacts.v", "Adapt.v", "AdaptFacts.v"]
+CONE = ["Base.v", "IR.v", "Show.v", "Build.v", "Sem.v", "Plan.v", "Named.v", "Validate.v", "BuildFacts.v", "Adapt.v", "AdaptFacts.v", "CompilePres.v", "ScopeFacts.v", "DfsFacts.v", "EmitFacts.v", "IOFacts.v", "ReqFacts.v"]
 PROPS = "props/C09.v"
 F32 = np.float32
 MODS = {v: importlib.import_module(f"spox.opset.ai.onnx.v{v}") for v in (17, 18, 19, 20, 21)}
@@ -361,6 +361,13 @@ def run(run: Run) -> int:
             f"(decisions (with_main {c.coq[0]} None []) differs m)) ++ \" | \" ++ "
             f"join \",\" (flat_map (fun u => match u with NReal k => [decn k] | _ => [] end) (all_srcs m)) ++ \" | \" ++ show_model m) | inr e => show_err e end")
     res = [parse_coq_string(x) for x in run.coq_eval("c09", header, exprs, shard=max(1, min(40, (len(exprs) + 15) // 16)))]
+    # premise of C09_default_domain_floor_by_construction on every program
+    hdr2 = header.replace("Adapt.", "Adapt ReqFacts.") if "ReqFacts" not in header else header
+    flags = run.coq_eval("c09wf", hdr2, [f"wf_gargs_b {c.coq[0]}" for c in live], shard=max(1, min(40, (len(live) + 15) // 16)))
+    n_wf = sum(x.strip() == "true" for x in flags)
+    if n_wf != len(live):
+        badc = next(c for c, x in zip(live, flags) if x.strip() != "true")
+        run.fail("corr", "C09/floor-premise-not-met", "a reflected program requests a result identity as a graph argument", B.describe(badc))
     mism = 0
     for c, r in zip(live, res):
         if c.model_proto is None:
